@@ -49,18 +49,24 @@ Map(x) == [k |-> "map", x |-> x]
 IsNone(x, neg) == [k |-> "isnone", x |-> x, neg |-> neg]      \* x.rx.is_(None) / x.rx.is_not(None)
 Count(x, y) == [k |-> "count", x |-> x, y |-> y]
 BindF(x, y) == [k |-> "bindf", x |-> x, y |-> y]
+DCode(x) == [k |-> "dcode", x |-> x]      \* x.rx.pipe(code): a function of the keys and values of a dictionary input
 
 \* ---- values ------------------------------------------------------------------------------
 IV(v) == [t |-> "i", v |-> v]
 BV(v) == [t |-> "b", v |-> v]
 LV(s) == [t |-> "l", items |-> s]
 Err(e) == [t |-> "e", e |-> e]
-Truth(v) == CASE v.t = "i" -> v.v # 0 [] v.t = "b" -> v.v [] v.t = "l" -> v.items # <<>>
+Truth(v) == CASE v.t = "i" -> v.v # 0 [] v.t = "b" -> v.v [] v.t = "l" -> v.items # <<>> [] v.t = "d" -> TRUE
 Num(v) == IF v.t = "b" THEN (IF v.v THEN 1 ELSE 0) ELSE v.v
 IsNum(v) == v.t \in {"i", "b"}
 ListOf(tok) == IF tok = 1 THEN <<1, 2>> ELSE IF tok = 2 THEN <<5>> ELSE <<>>
 
-InputVal(n, env) == IF n = "l" THEN LV(ListOf(env[n])) ELSE IV(env[n])
+\* the dictionary input d: token 0 = {'a': 1, 'b': 2}, 1 = {'a': 1, 'c': 5} (same size, one key renamed), 2 = {'a': 1};
+\* code(m) = sum of values + 7 if 'c' is a key
+DV(tok) == [t |-> "d", tok |-> tok]
+DictCode(tok) == CASE tok = 0 -> 3 [] tok = 1 -> 13 [] tok = 2 -> 1
+DictLen(tok) == IF tok = 2 THEN 1 ELSE 2
+InputVal(n, env) == IF n = "l" THEN LV(ListOf(env[n])) ELSE IF n = "d" THEN DV(env[n]) ELSE IV(env[n])
 
 Arith(op, x, y) ==
   CASE op = "add" -> IV(x + y) [] op = "sub" -> IV(x - y) [] op = "mul" -> IV(x * y)
@@ -82,7 +88,7 @@ Eval(e, env) ==
                              [] e.op = "abs" -> IF IsNum(x) THEN IV(IF Num(x) < 0 THEN 0 - Num(x) ELSE Num(x)) ELSE Err("TypeError")
                              [] e.op = "not" -> BV(~Truth(x))
                              [] e.op = "bool" -> BV(Truth(x))
-                             [] e.op = "len" -> IF x.t = "l" THEN IV(Len(x.items)) ELSE Err("TypeError"))
+                             [] e.op = "len" -> IF x.t = "l" THEN IV(Len(x.items)) ELSE IF x.t = "d" THEN IV(DictLen(x.tok)) ELSE Err("TypeError"))
     [] e.k = "idx" -> LET x == Eval(e.x, env) i == Eval(e.y, env) IN
                       IF x.t = "e" THEN x ELSE IF i.t = "e" THEN i
                       ELSE IF x.t # "l" \/ ~IsNum(i) THEN Err("TypeError")
@@ -99,6 +105,7 @@ Eval(e, env) ==
     [] e.k \in {"pipe", "pipekw", "bindf"} -> LET x == Eval(e.x, env) y == Eval(e.y, env) IN
                        IF x.t = "e" THEN x ELSE IF y.t = "e" THEN y ELSE IV(10 * Num(x) + Num(y))
     [] e.k = "isnone" -> LET x == Eval(e.x, env) IN IF x.t = "e" THEN x ELSE BV(e.neg)
+    [] e.k = "dcode" -> LET x == Eval(e.x, env) IN IF x.t = "e" THEN x ELSE IF x.t = "d" THEN IV(DictCode(x.tok)) ELSE Err("TypeError")
     [] e.k = "map" -> LET x == Eval(e.x, env) IN
                       IF x.t = "e" THEN x ELSE LV([i \in 1..Len(x.items) |-> x.items[i] + 1])
     [] e.k = "count" -> LET x == Eval(e.x, env) y == Eval(e.y, env) IN
@@ -109,12 +116,12 @@ Eval(e, env) ==
 RECURSIVE Inputs(_)
 Inputs(e) ==
   CASE e.k = "in" -> {e.n} [] e.k = "c" -> {}
-    [] e.k \in {"un", "map", "isnone"} -> Inputs(e.x)
+    [] e.k \in {"un", "map", "isnone", "dcode"} -> Inputs(e.x)
     [] e.k = "where" -> Inputs(e.c) \cup Inputs(e.x) \cup Inputs(e.y)
     [] OTHER -> Inputs(e.x) \cup Inputs(e.y)
 \* reactive sub-expressions the harness keeps handles to (the expression itself and its operands)
 Subs(e) == {e} \cup (IF e.k \in {"bin", "idx", "and", "or", "inl", "pipe", "pipekw", "count", "bindf"} THEN {x \in {e.x, e.y} : x.k \notin {"in", "c"}}
-                     ELSE IF e.k \in {"un", "map", "isnone"} THEN {x \in {e.x} : x.k \notin {"in", "c"}}
+                     ELSE IF e.k \in {"un", "map", "isnone", "dcode"} THEN {x \in {e.x} : x.k \notin {"in", "c"}}
                      ELSE IF e.k = "where" THEN {x \in {e.c, e.x, e.y} : x.k \notin {"in", "c"}} ELSE {})
 \* does the expression use a where result inside a larger expression (a deviation found with this
 \* module -- such expressions did not follow the selected branch -- is repaired: known_findings.json)
@@ -122,17 +129,18 @@ RECURSIVE HasInnerWhere(_, _)
 HasInnerWhere(e, top) ==
   CASE e.k \in {"in", "c"} -> FALSE
     [] e.k = "where" -> ~top \/ HasInnerWhere(e.c, FALSE) \/ HasInnerWhere(e.x, FALSE) \/ HasInnerWhere(e.y, FALSE)
-    [] e.k \in {"un", "map", "isnone"} -> HasInnerWhere(e.x, FALSE)
+    [] e.k \in {"un", "map", "isnone", "dcode"} -> HasInnerWhere(e.x, FALSE)
     [] OTHER -> HasInnerWhere(e.x, FALSE) \/ HasInnerWhere(e.y, FALSE)
 
 VARIABLES expr, env, dirty, cached, watched, nops, hist
 vars == <<expr, env, dirty, cached, watched, nops, hist>>
-Names == {"a", "b", "p", "l"}
+Names == {"a", "b", "p", "l", "d"}
 Dom(n) == IF n = "l" THEN {1, 2} ELSE {0, 1, 2}
 
 Init == /\ expr \in Exprs
         /\ env \in [Names -> {0, 1, 2}] /\ env["l"] \in {1, 2}
         /\ \A n \in Names \ Inputs(expr) : env[n] = 1          \* unused inputs: one value
+        /\ ("d" \in Inputs(expr) => env["d"] = 0)
         /\ dirty = [s \in Subs(expr) |-> TRUE] /\ cached = [s \in Subs(expr) |-> IV(0)]
         /\ watched \in BOOLEAN /\ nops = 0 /\ hist = <<>>
         \* expressions are built over inputs for which they have a value (building evaluates)
@@ -160,7 +168,14 @@ Read(s) ==
   /\ UNCHANGED <<expr, env, watched>>
   /\ Rec([a |-> "read", sub |-> s, top |-> s = expr, val |-> cached'[s],
           kf |-> {}])
-Next == (\E n \in Names, v \in 0..2 : Update(n, v)) \/ (\E s \in Subs(expr) : Read(s))
+\* a new expression is built on top of an existing handle *now* -- after whatever was read and updated so
+\* far -- and read at once: it must start from the handle's current value, not from what the handle last cached
+Derive(s) ==
+  /\ Step /\ s \in Subs(expr) /\ s.k \notin {"in", "c"}
+  /\ Eval(s, env).t \in {"i", "b"}
+  /\ UNCHANGED <<expr, env, dirty, cached, watched>>
+  /\ Rec([a |-> "derive", sub |-> s, val |-> Eval(Bin("add", s, C(1)), env), kf |-> {}])
+Next == (\E n \in Names, v \in 0..2 : Update(n, v)) \/ (\E s \in Subs(expr) : Read(s) \/ Derive(s))
 Spec == Init /\ [][Next]_vars
 
 \* the cache protocol is coherent: a clean handle holds the plain-Python value of its tree
